@@ -183,6 +183,11 @@ P = json.loads(%(payload)r)
 clause = P['clause']; meth = P['method']; axes = P['axes']
 axes = tuple(axes) if isinstance(axes, list) else axes
 IM = np.array(P['IM'], dtype=float)
+if P.get('spot'):
+    # noiseless separable Gaussian spot (closed form): shape, centre, widths, amplitude, background
+    S = P['spot']
+    i = np.arange(S['shape'][0])[:, None]; j = np.arange(S['shape'][1])[None, :]
+    IM = S['amp'] * np.exp(-(i - S['mu'][0]) ** 2 / 2 / S['sigma'][0] ** 2) * np.exp(-(j - S['mu'][1]) ** 2 / 2 / S['sigma'][1] ** 2) + S['bg']
 sel = [a in ({axes} if isinstance(axes, int) else set(axes)) for a in (0, 1)]
 centre = [IM.shape[0] // 2, IM.shape[1] // 2]
 def err(o, e):
@@ -236,6 +241,14 @@ def evaluate():
             want = [sum(p[i] * p[k - i] for i in range(len(p)) if 0 <= k - i < len(p)) for k in range(2 * len(p) - 1)]
             ok = ok and cv is not None and len(cv) == len(want) and np.allclose(cv, want, rtol=1e-12, atol=0)
         return ok, 'origin %%r / %%r' %% (tuple(map(float, o1)), tuple(map(float, o2)))
+    if clause == 'scale-pow2':
+        # multiplying by a power of two scales every float exactly: the reported origin must be bit-identical
+        o2 = find_origin(IM * 2.0 ** P['k'], method=meth, axes=axes)
+        same = all(float(o2[a]) == float(o[a]) for a in (0, 1))
+        e = [P['expected'][a] if sel[a] else centre[a] for a in (0, 1)] if P.get('expected') else [float(v) for v in o]
+        d = err(o2, e)
+        return same and d <= P['tol'], 'factor 2**%%d: origin %%r -> %%r%%s' %% (
+            P['k'], tuple(map(float, o)), tuple(map(float, o2)), '' if not P.get('expected') else ' (spot centre %%r)' %% (P['expected'],))
     if clause == 'scale':
         o2 = find_origin(IM * P['factor'], method=meth, axes=axes)
         return err(o2, [float(v) for v in o]) <= P['tol'], 'factor %%r: origin %%r -> %%r' %% (
@@ -280,13 +293,16 @@ def eval_snippet_clause(hit):
 def gaussian_spot(rng, n, m):
     """noiseless Gaussian spot well inside the frame (+ optional background)"""
     mu = (rng.uniform(0.35 * n, 0.65 * n), rng.uniform(0.35 * m, 0.65 * m))
-    sg = (rng.uniform(0.06 * n, 0.12 * n), rng.uniform(0.06 * m, 0.12 * m))
+    if max(n, m) >= 400 and rng.random() < 0.6:       # a narrow spot on a large frame
+        sg = (rng.uniform(2.5, 8), rng.uniform(2.5, 8))
+    else:
+        sg = (rng.uniform(0.06 * n, 0.12 * n), rng.uniform(0.06 * m, 0.12 * m))
     amp = rng.uniform(0.5, 100)
     bg = 0.0 if rng.random() < 0.5 else rng.uniform(0, 0.2) * amp
     i = np.arange(n)[:, None]
     j = np.arange(m)[None, :]
     IM = amp * np.exp(-(i - mu[0]) ** 2 / 2 / sg[0] ** 2) * np.exp(-(j - mu[1]) ** 2 / 2 / sg[1] ** 2) + bg
-    return IM, mu, bg
+    return IM, mu, bg, dict(shape=[n, m], mu=[float(v) for v in mu], sigma=[float(v) for v in sg], amp=float(amp), bg=float(bg))
 
 
 def search(ctx, rng, budget):
@@ -370,6 +386,19 @@ def search(ctx, rng, budget):
             if not good_ic:
                 hits.append(mkhit('image_center', meth, axes, C, 'image_center does not report (rows//2, cols//2)',
                                   0.0, expected=centre))
+            # positive-scale invariance over many decades: exact powers of two scale every float exactly, so the
+            # result must be bit-identical (|k| <= 400: squares in the autoconvolution stay normal numbers)
+            kpow = int(rng.integers(-400, 401))
+            n_eval += 1
+            distinct.add(('pow2', meth, repr(axes), int(np.sign(kpow)), abs(kpow) > 100))
+            try:
+                o4 = find_origin(C * 2.0 ** kpow, method=meth, axes=axes)
+                good_pow = all(float(o4[k_]) == float(o[k_]) for k_ in (0, 1))
+            except Exception:       # noqa
+                good_pow = False
+            if not good_pow:
+                hits.append(mkhit('scale-pow2', meth, axes, C, 'multiplying the image by 2**%d changes the origin reported by %s'
+                                  % (kpow, meth), 0.0, k=kpow))
         # 5b. option values: round_output=True (com) = nearest integer to the exact centre of mass, on
         #     integer-valued images (symmetric about a pixel centre, and arbitrary content); projections=True
         Cint = np.round(C).astype(float)
@@ -396,7 +425,9 @@ def search(ctx, rng, budget):
         # 6. Gaussian fit on noiseless spots (optimiser external: only swept)
         if it % 3 == 0:
             gn, gm = (int(v) for v in rng.integers(12, 80, size=2))
-            G, mu, bg = gaussian_spot(rng, gn, gm)
+            if it % 60 == 0 or (budget > 1000 and it % 30 == 0):       # a few large frames (>= 400 px)
+                gn, gm = (int(v) for v in rng.integers(400, 1100, size=2))
+            G, mu, bg, spot = gaussian_spot(rng, gn, gm)
             sel_g = ax_flags(axes)
             n_eval += 3
             distinct.add(('gauss', repr(axes), gn % 2, gm % 2, bg > 0))
@@ -410,18 +441,28 @@ def search(ctx, rng, budget):
                 j = np.arange(gm)[None, :]
                 o3 = find_origin(G * 3.7, method='gaussian', axes=axes)
                 good_scale = err(o3, o) <= TOL['gaussian']
+                kpow = int(rng.integers(-400, 401))
+                o5 = find_origin(G * 2.0 ** kpow, method='gaussian', axes=axes)
+                good_pow = all(float(o5[k_]) == float(o[k_]) for k_ in (0, 1)) and err(o5, e) <= TOL['gaussian']
             except Exception:       # noqa
-                good = good_scale = False
+                good = good_scale = good_pow = False
+                kpow = 0
+            n_eval += 1
+            distinct.add(('pow2', 'gaussian', repr(axes), int(np.sign(kpow)), abs(kpow) > 100, gn >= 400))
+            if not good_pow:
+                hits.append(mkhit('scale-pow2', 'gaussian', axes, [[0.0]], 'multiplying a Gaussian spot %r by 2**%d changes the '
+                                  'fitted origin / moves it off the spot centre' % ((gn, gm), kpow), TOL['gaussian'], k=kpow,
+                                  expected=list(mu), spot=spot))
             if not good:
-                hits.append(mkhit('gaussian', 'gaussian', axes, G, 'Gaussian spot centred at %r: gaussian fit reports '
-                                  'something else' % (mu,), TOL['gaussian'], expected=list(mu)))
+                hits.append(mkhit('gaussian', 'gaussian', axes, [[0.0]], 'Gaussian spot centred at %r: gaussian fit reports '
+                                  'something else' % (mu,), TOL['gaussian'], expected=list(mu), spot=spot))
             if not good_scale:
-                hits.append(mkhit('scale', 'gaussian', axes, G, 'multiplying a Gaussian spot by 3.7 moves the fitted origin',
-                                  TOL['gaussian'], factor=3.7))
+                hits.append(mkhit('scale', 'gaussian', axes, [[0.0]], 'multiplying a Gaussian spot by 3.7 moves the fitted origin',
+                                  TOL['gaussian'], factor=3.7, spot=spot))
             if all(abs(v - np.floor(v) - 0.5) > 1e-3 for v in mu):
                 n_eval += 1
-                h = mkhit('round-gaussian', 'gaussian', axes, G, 'find_origin(method="gaussian", round_output=True) is not '
-                          'the integer nearest to the spot centre %r' % (mu,), 0.0, expected=list(mu))
+                h = mkhit('round-gaussian', 'gaussian', axes, [[0.0]], 'find_origin(method="gaussian", round_output=True) is not '
+                          'the integer nearest to the spot centre %r' % (mu,), 0.0, expected=list(mu), spot=spot)
                 if not eval_snippet_clause(h):
                     hits.append(h)
     return hits, n_eval, len(distinct)
@@ -445,7 +486,7 @@ def run(ctx):
                         'mirrored about a centre of the half-pixel grid within 2 px of the middle -> com (1e-9*size) and '
                         'convolution (exact); (2) content with empty margins rolled by whole pixels, (3) multiplied by a '
                         'positive factor (convolution: powers of two, or small integers on integer content, so that exact ties stay tied in binary64), (4) image_center, (5) coordinates of axes not requested, for image_center / com / '
-                        'convolution; (6) noiseless Gaussian spots for the gaussian method (1e-6 px). distinct = (clause '
+                        'convolution; (6) noiseless Gaussian spots for the gaussian method (1e-6 px), frames 12..80 px and a few of 400..1100 px; all four methods: multiplication by 2**k, |k| <= 400, must give a bit-identical origin. distinct = (clause '
                         'family, method, axes, parities, centre parities or shift signs); correspondence cases counted in '
                         'evaluations only',
                    samples=[dict(kind=c['kind'], shape=list(np.asarray(c['IM']).shape), method=c['meth'],
